@@ -60,6 +60,26 @@ def fp_verdict(w, text, indent):
     return "ok", None
 
 
+def setting_history(acc, w, build, text):
+    """the rendering under a setting must not depend on the setting the same text was formatted with just before
+    (consecutive calls on one text, then the reverse order after another text went through the formatter)"""
+    def one(ind):
+        r = w.call({"op": "fmt", "code": text, "indent": ind, "passes": 1}, timeout=60)
+        p = r.get("passes")
+        return p[0].get("ok") if p and isinstance(p[0], dict) and "ok" in p[0] else None
+    a2, a4 = one(2), one(4)
+    w.call({"op": "fmt", "code": "1", "indent": 2, "passes": 1}, timeout=60)
+    b4, b2 = one(4), one(2)
+    if None in (a2, a4, b4, b2):
+        return
+    acc.inc("evaluations", 5)
+    acc.inc("setting_history_cases")
+    if a4 != b4 or a2 != b2:
+        acc.violation({"oracle": "rendering-depends-on-previous-setting"},
+                      {"text": text, "build": build, "indent4_after_indent2": a4, "indent4_after_other_text": b4,
+                       "indent2_first": a2, "indent2_after_indent4": b2})
+
+
 def reduce_failure(w, text, indent, kind):
     toks = [t[3] for t in w.call({"op": "lex", "code": text}).get("tokens", [])]
     if not toks or "".join(toks) != text:
@@ -213,6 +233,7 @@ def shard(idx, n, tier, seed, builds, cli):
                     fixed_point(acc, w, build, t, "generated")
                 for t in mine:
                     fixed_point(acc, w, build, t, "corpus")
+                    setting_history(acc, w, build, t)
                     if "\n" in t:
                         fixed_point(acc, w, build, t.replace("\n", "\r\n"), "corpus-crlf")
                     toks = w.call({"op": "lex", "code": t}).get("tokens", [])
